@@ -226,6 +226,33 @@ def run_gen(family, n, seed, tier):
 TRACE_STATS = {}
 
 
+APALACHE_RUNS = []
+
+
+def run_apalache(module, args, expect_fail=False, timeout=300):
+    """A bonus step, never relied on for a verdict (DESIGN.md 5): Apalache on spec/<module>.tla. Returns "ok", "violated" or
+    "unavailable" (tool missing, time-out, tool error) and records the run for the evidence file."""
+    d = _spec_copy()
+    out = tempfile.mkdtemp(prefix="apa-", dir=scratch())
+    cmd = ["timeout", str(timeout), "apalache-mc", "check", "--out-dir=" + out] + args + [module + ".tla"]
+    t0 = time.time()
+    try:
+        p = subprocess.run(cmd, cwd=d, stdout=subprocess.PIPE, stderr=subprocess.STDOUT, universal_newlines=True)
+        txt = p.stdout
+    except OSError as ex:
+        txt, p = str(ex), None
+    if p is not None and "EXITCODE: OK" in txt:
+        res = "ok"
+    elif p is not None and "EXITCODE: ERROR (12)" in txt:
+        res = "violated"
+    else:
+        res = "unavailable"
+    APALACHE_RUNS.append({"module": module, "args": " ".join(args), "result": res, "expected": "violated" if expect_fail else "ok",
+                          "wall_s": round(time.time() - t0, 1)})
+    shutil.rmtree(out, ignore_errors=True)
+    return res
+
+
 def validate_trace(module, events, cfg=None, batch=20000, env=None, timeout=900, heap="4g", par=None):
     """Binding T. events: list of dicts (one trace event each). The trace spec consumes one event per
     step, prints a {"rej": l, "why": ..} record for every event it cannot accept, and its
@@ -370,6 +397,8 @@ class Run:
         }
         if TRACE_STATS:
             cov["reference_status_of_validated_runs"] = TRACE_STATS
+        if APALACHE_RUNS:
+            cov["apalache_runs"] = APALACHE_RUNS
         cov.update(self.extra)
         ev = {
             "property_id": self.prop, "tier": self.tier, "seed": self.seed, "level": "model_checking",
